@@ -29,11 +29,23 @@ func genC16(t *rapid.T) c16Prog {
 	cfg.MaxOps = ev.Scale(24, 60)
 	cfg.Orders = []int{0, 0, 1, 1, 2} // also FirstWriteWins: "the linearisation the unbounded merge would have produced" is then taken from the twin
 	w := sim.Gen(t, cfg)
+	a := rapid.IntRange(0, w.Replicas-1).Draw(t, "dst")
+	// the other replicas may be configured with another SortFn than the destination (it shows in the order in
+	// which their merge entries list their predecessors); the destination's ordering is the world's
+	if rapid.IntRange(0, 2).Draw(t, "mixedOrders") == 0 {
+		for i := 0; i < w.Replicas; i++ {
+			o := -1
+			if i != a {
+				o = rapid.IntRange(0, 2).Draw(t, "replicaOrder")
+			}
+			w.ReplicaOrders = append(w.ReplicaOrders, o)
+		}
+	}
 	return c16Prog{
-		World: w,
-		A:     rapid.IntRange(0, w.Replicas-1).Draw(t, "dst"),
-		B:     rapid.IntRange(0, w.Replicas-1).Draw(t, "src"),
-		N:     rapid.IntRange(0, 1<<16).Draw(t, "n"),
+		World:  w,
+		A:      a,
+		B:      rapid.IntRange(0, w.Replicas-1).Draw(t, "src"),
+		N:      rapid.IntRange(0, 1<<16).Draw(t, "n"),
 		Second: rapid.IntRange(0, 2).Draw(t, "second") == 0,
 		C:      rapid.IntRange(0, w.Replicas-1).Draw(t, "src2"),
 		N2:     rapid.IntRange(0, 1<<16).Draw(t, "n2"),
